@@ -649,6 +649,11 @@ func AbstractTensor(t tensor.Tensor) (AbsTensor, error) {
 // sameValue compares a real element with the concretised expected element.
 // mode "bits": bit-exact (any NaN equals any NaN); mode "num": additionally -0 == +0.
 func sameValue(got, want interface{}, mode string) bool {
+	if strings.HasPrefix(mode, "ulp:") {
+		k := 0
+		fmt.Sscanf(mode, "ulp:%d", &k)
+		return withinUlps(got, want, int64(k))
+	}
 	switch w := want.(type) {
 	case float32:
 		g, ok := got.(float32)
@@ -793,4 +798,44 @@ func (a Snapshot) String() string {
 		b = b[:64] + "..."
 	}
 	return fmt.Sprintf("%s%v/%v:%s", a.Dt, a.Shape, a.Strides, b)
+}
+
+// withinUlps compares at float32 resolution: |ord(got) - ord(want)| <= k ulps, NaN only with NaN, and any two values
+// below the smallest normal float32 are taken as equal (flush-to-zero tolerance). float64 results are first rounded to
+// float32 and get one extra ulp for the double rounding.
+func withinUlps(got, want interface{}, k int64) bool {
+	var g, w float32
+	switch x := want.(type) {
+	case float32:
+		gg, ok := got.(float32)
+		if !ok {
+			return false
+		}
+		g, w = gg, x
+	case float64:
+		gg, ok := got.(float64)
+		if !ok {
+			return false
+		}
+		if gg != gg || x != x {
+			return gg != gg && x != x
+		}
+		g, w = float32(gg), float32(x)
+		k++
+	default:
+		return got == want
+	}
+	if w != w || g != g {
+		return w != w && g != g
+	}
+	og, ow := int64(f32Ord(g)), int64(f32Ord(w))
+	const minNormal = 0x00800000
+	if og > -minNormal && og < minNormal && ow > -minNormal && ow < minNormal {
+		return true
+	}
+	d := og - ow
+	if d < 0 {
+		d = -d
+	}
+	return d <= k
 }
